@@ -63,9 +63,24 @@ def load_variants(only: str | None = None) -> list[dict]:
             if not os.path.isfile(pf):
                 continue
             prop = name.split("-")[0]
-            if only and only != prop:
+            # the checks that report this change (recorded by tools/seed_eval.py): it must stay reported by one of them.
+            # A change that no static rule can see (recorded as MISSED, see DESIGN.md) is not asserted.
+            props = [prop]
+            mp = os.path.join(sd, name, "meta.json")
+            if os.path.isfile(mp):
+                try:
+                    with open(mp, encoding="utf-8") as f:
+                        run_ = json.load(f).get("checks_run", {})
+                    fired = [k for k, v in run_.get("fired", {}).items() if v and not v[0].startswith("ANALYSIS")]
+                    if run_.get("verdict") in ("MISSED", "does not apply to the current tree"):
+                        continue
+                    if fired:
+                        props = fired
+                except (OSError, ValueError):
+                    pass
+            if only and only not in props:
                 continue
-            out.append({"id": f"seeded-{name}", "kind": "mutant", "property": prop, "expect_rule": None, "patch": pf, "source": "seeded"})
+            out.append({"id": f"seeded-{name}", "kind": "mutant", "property": prop, "properties": [only] if only else props, "expect_rule": None, "patch": pf, "source": "seeded"})
     return out
 
 
